@@ -139,10 +139,12 @@ static std::string pattern_text(vh::Rng& r) {
   static const char* parts[] = {"/", ":id", "*", "(\\d+)", "{/a}?", "{/b}", ":x?", "(a|b)", "\\:", "{", "}", "/books", ".", "..", "%41", "\xC3\xA9", ":\xC3\xA9", "(.*)", "?q=:v", "#:h", "//", "https", "://", "example.com", ":8080", "user:pw@", "[::1]", "a.b", "(", ")", "+", "?"};
   // at most two unbounded parts per pattern: libstdc++'s backtracking std::regex goes exponential on stacked wildcards,
   // which would be a property of the regex provider, not of ada (first version of this generator hung there for minutes)
-  std::string s; size_t n = 1 + r.below(7); int greedy = 0;
+  std::string s; size_t n = 1 + r.below(7); int greedy = 0; bool last_is_group = false;
   for (size_t i = 0; i < n; i++) { std::string p = r.pick(parts); bool g = p.find_first_of("*+") != std::string::npos || p == ":id" || p[0] == ':'; if (g && ++greedy > 2) continue;
-    if (!s.empty() && (s.back() == ')' || s.back() == '}' || s.back() == '*' || s.back() == '+') && (p[0] == '*' || p[0] == '+')) continue;   // no quantifier on a group that contains one: (.*)* is exponential in any backtracking engine
-    s += p; }
+    // no '*' / '+' modifier on a named group, a regexp group, a {...} group or a wildcard: (.*)*, :name+ and *+ all compile to a
+    // quantified group that itself contains a quantifier - exponential in any backtracking engine
+    if (last_is_group && (p[0] == '*' || p[0] == '+')) continue;
+    s += p; last_is_group = p[0] == ':' || p.back() == ')' || p.back() == '}' || p.back() == '*' || p.back() == '+' || p[0] == '#' || p.find(':') != std::string::npos; }
   return s;
 }
 static Case gen_case(vh::Rng& r, const std::vector<std::string>& pool) {
